@@ -27,6 +27,14 @@ def construct_registry(
     return registry
 
 
+def check_b64_header(header: Header) -> None:
+    # the functions of this package act on "b64": its type and the "crit" rule
+    # are enforced whatever registry the caller passed
+    if not isinstance(header["b64"], bool):
+        raise ValueError('"b64" in header must be a bool')
+    _safe_b64_header(header)
+
+
 def _safe_b64_header(header: Header) -> bool:
     # https://datatracker.ietf.org/doc/html/rfc7797#section-6
     crit = header.get("crit")
